@@ -67,6 +67,7 @@ def run(ctx):
         "the step relation is shared with C13 (Geom.tla); C12_Law is stated independently through cell centres",
         "values and coordinates compared to 1e-9 relative",
     ]
+    core.df_stage(ctx, df)   # mixed histories (spec/DF.tla): the clauses that come from this property's text
     return core.finish(ctx, rule=RULE, extra={"embeddings": [e.name for e in embs]})
 
 
